@@ -15,11 +15,16 @@ META = {
             "outside every live payload; exact condition for malloc = 0. The model is tied to the real WAT (run by the vendored wazero via "
             "malloc.Heap) by a correspondence run comparing returned pointer, globals, all list walks after every operation and the changed "
             "memory words against the model's write log; heap_malloc.wat.ws (the copy linked into programs) is tied to malloc.wat by a "
-            "regenerated function-body comparison.",
+            "regenerated function-body comparison. The straight-line helpers ($heap_alignment8, $heap_free_list.ptr_and_fixed_size, "
+            "$heap_is_fixed_size, $heap_block.data, the assert helpers) are additionally REGENERATED from malloc.wat as a Lean term on every run "
+            "and proved equal to the model's align8 / ptrAndFixedSize by symbolic execution of a WAT-subset interpreter (Props/C10Wat.lean); "
+            "interpreter + term are compared with wazero on the exported helpers.",
     "note": "Trusted: Lean kernel; the hand-written model's tie to the WAT is differential (correspondence), not a refinement proof; wazero "
             "executes the WAT; the oracle in harness/c10 (overlap/alignment/bounds/size/canary/header/tiling/zero-condition on the real heap). "
             "Excluded by guards and reported as findings: malloc(0) with the fixed lists disabled; configurations whose maximum memory lets "
-            "heap_ptr + block reach 2^31 (signed wrap); growth ignoring slack (the failure condition proved is the code's exact one).",
+            "heap_ptr + block reach 2^31 (signed wrap); growth ignoring slack (the failure condition proved is the code's exact one). "
+            "Not proved: rover-in-ring and fixed-list length <= capacity (checked by the oracle on the real heap after every op); the "
+            "loop-carrying WAT functions are tied by correspondence only; i32 in the helper interpreter is modelled as wrapped Int.",
     "technique": "Lean 4 proof over hand-written model + differential correspondence incl. write-log + oracle on the real heap + regenerated WAT tie",
 }
 REQUIRED = ["live_disjoint", "live_in_heap", "live_aligned8", "live_size_ge_request", "tiling",
@@ -323,7 +328,7 @@ def run(ctx):
                                         "why": "op %r: wazero=%r lean=%r" % (op, a, b)})
 
     quick = ctx.tier == "quick"
-    nhist, nops = (48, 400) if quick else (640, 1500)
+    nhist, nops = (48, 400) if quick else (480, 1500)
     jobs = []        # (name, cfg, nops, style, script, seed)
     if ctx.replay:
         rp = json.load(open(ctx.replay))
